@@ -31,7 +31,7 @@ def output_universe(n):
 
 
 class MainModel:
-    def __init__(self, prog, n, watch, root_syms=None, roots_dup=False):
+    def __init__(self, prog, n, watch, root_syms=None, roots_dup=False, kinds=None, dep_syms=None):
         self.prog = prog
         from .actors import init_types
         init_types(prog)
@@ -40,6 +40,9 @@ class MainModel:
         self.names = [tname(i) for i in range(n)]
         self.root_syms = root_syms if root_syms is not None else [z3.Bool('root_%d' % i) for i in range(n)]
         self.roots_dup = roots_dup
+        # kinds and (symbolic) dependency lists of the targets: the engine may consult the target map (e.g. to prune or order roots)
+        self.kinds = kinds
+        self.dep_syms = dep_syms
         self.dup_syms = [z3.Bool('rootdup_%d' % i) for i in range(n)] if roots_dup else []
         self.world = ProtoWorld()
         self.outs = output_universe(n)
@@ -64,7 +67,11 @@ class MainModel:
 
     def _start(self, I):
         # targets map: kind is irrelevant to the main task (it only forwards the value to launch_target_actor)
-        tmap = RMap({key_of(tid(nm)): (True, tid(nm), mk_target('aggregate', nm, [])) for nm in self.names})
+        def tgt(i, nm):
+            kind = self.kinds[i] if self.kinds else 'aggregate'
+            deps = list(zip(self.dep_syms[i], self.names[:i])) if self.dep_syms else []
+            return mk_target(kind, nm, deps, input_nonempty=(kind != 'aggregate'))
+        tmap = RMap({key_of(tid(nm)): (True, tid(nm), tgt(i, nm)) for i, nm in enumerate(self.names)})
         new_fd = self.prog.find_fn('TargetActors::new')
         wopt = REnum('WatchOption', 'Enabled' if self.watch else 'Disabled')
         ta = I.call_fn(new_fd, [tmap, Opaque('Sender', chan='OUT'), wopt])
